@@ -1270,6 +1270,10 @@ def std_model(I, p, fr, t, args):
     if n == "last" and isinstance(d0, Iter) and d0.items is not None and (t.get("callee_trait") == "core::iter::traits::iterator::Iterator" or c.startswith("core::iter::")):
         rest = d0.items[d0.pos:]
         return Adt("core::option::Option", "Some", {"0": rest[-1]}) if rest else Adt("core::option::Option", "None", {})
+    if n == "concat" and isinstance(d0, Vec) and c.startswith("alloc::slice::"):
+        parts = [I.deref(x) for x in d0.items]
+        if all(isinstance(x, Vec) for x in parts):
+            return Vec([copy.deepcopy(y) if isinstance(y, (Adt, Vec)) else y for x in parts for y in x.items])
     if n == "flat_map" and isinstance(d0, Iter) and d0.items is not None and len(args) > 1 and isinstance(args[1], FnVal) and \
             (t.get("callee_trait") == "core::iter::traits::iterator::Iterator" or c.startswith("core::iter::")):
         flat = []
@@ -1400,6 +1404,13 @@ def std_model(I, p, fr, t, args):
         if r is None:
             return Unknown("eq")
         return r if n == "eq" else (not r)
+    if n in ("then", "then_some") and c.startswith("core::bool::") and isinstance(d0, bool) and len(args) > 1:
+        if not d0:
+            return Adt("core::option::Option", "None", {})
+        if n == "then_some":
+            return Adt("core::option::Option", "Some", {"0": args[1]})
+        if isinstance(args[1], FnVal):
+            return Adt("core::option::Option", "Some", {"0": I.call_value(args[1], [], getattr(fr, "depth", 0))})
     # calling a closure / function value that was passed in: Fn::call(&f, (args,))
     if n in ("call", "call_mut", "call_once") and (t.get("callee_trait") or "").startswith("core::ops::function::Fn") and len(args) == 2:
         fv = d0
